@@ -249,6 +249,20 @@ func (rs *bodyStream) skipRest() error {
 		}
 
 		strCRLFLen := len(bytestr.StrCRLF)
+		if rs.chunkLeft > 0 {
+			// the reader stopped inside a chunk: what follows is the rest of its payload,
+			// not a chunk-size line
+			if _, err := rs.reader.Peek(rs.chunkLeft); err != nil {
+				return err
+			}
+			if err := rs.reader.Skip(rs.chunkLeft); err != nil {
+				return err
+			}
+			rs.chunkLeft = 0
+			if err := utils.SkipCRLF(rs.reader); err != nil {
+				return err
+			}
+		}
 		for {
 			chunkSize, err := utils.ParseChunkSize(rs.reader)
 			if err != nil {
